@@ -10,7 +10,7 @@ class P(StreamProperty):
     theorems = ['C04_eq', 'C04_order_dup_independent', 'wf_of_check']
     rule = ('LDPC decoder sessions observed after EVERY of_decode_with_new_symbol call (available source symbols, completion flag, and the '
             "decoder's remaining matrix): all arrival sequences without repetition for n<=6, all subsets x shuffled orders with duplicates for n<=nmax, sampled k up to 2000; "
-            'even N1 (pretend-received null symbol) included; compared with the transliterated decoder model AND, as the direct oracle, with the peeling closure computed '
+            'even N1 (pretend-received null symbol) included; heavy columns (N1 up to n-k) and stars (decoding stuck, then one symbol arrives that leaves >= 5 equations with a single unknown at once);  compared with the transliterated decoder model AND, as the direct oracle, with the peeling closure computed '
             'independently in Python; non-trivial = distinct (config, arrival sequence)')
 
     def project(self, line, out):
@@ -89,6 +89,9 @@ class P(StreamProperty):
         # heavy columns (small k, N1 up to n-k), repairs first then a source symbol: one call brings many equations to one unknown
         for j, (cfg, order) in enumerate(gens.dense_column_configs(rng, 40 if tier == 'quick' else 400)):
             cases.append(self.mk('hc%d' % j, cfg, order, matrix=(j % 2 == 0)))
+        # stars: one symbol of column weight >= 5 arrives last while each of its equations has exactly one other unknown
+        for j, (cfg, order) in enumerate(gens.star_configs(rng, 30 if tier == 'quick' else 500)):
+            cases.append(self.mk('st%d' % j, cfg, order, matrix=(j % 4 == 0)))
         return cases
 
     def extra_stats(self, cases, res):
